@@ -583,6 +583,16 @@ func (g *G) nonConst(sc *scope, t *Ty, depth int) string {
 			}
 		}
 	}
+	if t.K == KU32 && !g.cfg.NoMachine {
+		for _, v := range g.varsOf(sc, func(v *Var) bool { return v.T.K == KSlice && v.T.Elem.K == KU8 && v.MinLen >= 4 }) {
+			v := v
+			alts = append(alts, func() string {
+				g.label("uint32get")
+				g.prog.Imports["github.com/goose-lang/goose/machine"] = true
+				return "machine.UInt32Get(" + use(v) + ")"
+			})
+		}
+	}
 	if len(alts) == 0 {
 		return ""
 	}
@@ -900,6 +910,36 @@ func (g *G) ptrExpr(sc *scope, t *Ty, depth int) string {
 	if len(ms) > 0 && g.chance("addrof", 35) {
 		g.label("address-of-local")
 		return "&" + use(ms[g.pick("addrofidx", len(ms))])
+	}
+	// pointer to a field of a var-declared struct / of a struct behind a pointer, or to a slice element
+	if g.chance("interiorptr", 30) {
+		type alt func() string
+		var alts []alt
+		for _, v := range g.varsOf(sc, func(v *Var) bool {
+			return v.Closure == nil && ((v.T.K == KStruct && v.Mutable) || (v.T.K == KPtr && v.T.Elem.K == KStruct && v.NonNil))
+		}) {
+			v := v
+			sd := v.T.S
+			if v.T.K == KPtr {
+				sd = v.T.Elem.S
+			}
+			for _, f := range sd.Fields {
+				f := f
+				if f.T.Same(t.Elem) {
+					alts = append(alts, func() string { g.label("field-pointer"); return "&" + use(v) + "." + f.Name })
+				}
+			}
+		}
+		for _, v := range g.varsOf(sc, func(v *Var) bool { return v.T.K == KSlice && v.MinLen > 0 && v.T.Elem.Same(t.Elem) }) {
+			v := v
+			alts = append(alts, func() string {
+				g.label("slice-element-pointer")
+				return fmt.Sprintf("&%s[%d]", use(v), g.pick("elemptridx", v.MinLen))
+			})
+		}
+		if len(alts) > 0 {
+			return alts[g.pick("interioralt", len(alts))]()
+		}
 	}
 	if t.Elem.K == KStruct {
 		if g.chance("newstruct", 30) {
